@@ -84,3 +84,32 @@ package isaacdatabase
 //@   hof Iter#0 loop invariant iter <= 1
 //@   hof Iter#0 loop invariant m != nil ==> exists([]byte(x), enchint == fst(ReadOneHeaderFrame(x)) && meta == snd(ReadOneHeaderFrame(x)) && body == third(ReadOneHeaderFrame(x)))
 //@   ensures [one-record] r4 == nil && r0 != nil ==> exists([]byte(x), r1 == fst(ReadOneHeaderFrame(x)) && r2 == snd(ReadOneHeaderFrame(x)) && r3 == third(ReadOneHeaderFrame(x)))
+
+// ---- C19: reads are routed to the right store --------------------------------------------
+//
+// (A9) the temporary databases are interface values: Height, SuffrageHeight and
+// SuffrageProof are pure functions of the database.
+// activeTemps returns a copy of the list (append to an empty slice)
+//@ func (*Center).activeTemps
+//@   trusted
+//@   ensures len(r0) == len(db.temps) && forall(k, 0 <= k && k < len(r0) ==> r0[k] == db.temps[k])
+//@ func (*Center).findTemp
+//@   prop C19
+//@   requires db != nil && forall(k, 0 <= k && k < len(db.temps) ==> db.temps[k] != nil)
+//@   ensures r0 == nil || exists(k, 0 <= k && k < len(db.temps) && r0 == db.temps[k])
+// A proof found among the temporaries for suffrage height s belongs to a block
+// whose suffrage height is exactly s.
+//@ func (*Center).suffrageProofInTemps
+//@   prop C19
+//@   requires db != nil && forall(k, 0 <= k && k < len(db.temps) ==> db.temps[k] != nil)
+//@   ensures [exact] r3 == nil && r2 ==> r0 != nil && r0.SuffrageHeight() == suffrageHeight && r1 == fst(r0.SuffrageProof()) && snd(r0.SuffrageProof())
+//@   loop 0 invariant forall(k, 0 <= k && k < len(temps) ==> temps[k] != nil)
+
+// The permanent store is asked for the proof at a block height that is not
+// above the requested height (the greatest proof at or below it is wanted),
+// and a proof from a temporary belongs to a block at or below that height.
+//@ func (*Center).SuffrageProofByBlockHeight
+//@   prop C19
+//@   requires db != nil && db.perm != nil && forall(k, 0 <= k && k < len(db.temps) ==> db.temps[k] != nil)
+//@   callsite SuffrageProofByBlockHeight requires a0 <= height
+//@   loop 0 invariant forall(k, 0 <= k && k < len(temps) ==> temps[k] != nil)
